@@ -121,7 +121,7 @@ impl Property for C20 {
     type Scenario = Scenario;
 
     fn rule() -> String {
-        "executor mode: 1-4 source tasks each running a seeded list of trigger(v).await / trigger_noop(v) / trigger of an undeclared type, a controller creating barriers (condition = value set, reaction Noop/Suspend/Panic, overlapping conditions), polling wait, dropping Triggered handles and dropping barriers; the poll order between all of these is the scenario's schedule (seeded interleavings incl. spurious polls of suspended sources). Oracle = reference registry of live barriers in creation order: each trigger goes to the earliest-created live matching barrier only, each barrier's wait results equal its model queue in order and exactly once, after every poll each source has made exactly the progress the model allows (suspended until its handle or the barrier is dropped, proceeds on its next poll afterwards; Noop and unmatched triggers never yield), Panic panics the source. fs mode: corruption_probability=1 inside a turmoil Sim, a Barrier<FsCorruption> sees one event per corrupting read (none if the condition is false or after the barrier is dropped). Non-trivial: >=2 live barriers match one trigger, or a barrier/handle is dropped while a source is suspended; distinct = digest of (step kinds, reactions taken)".into()
+        "executor mode: 1-4 source tasks each running a seeded list of trigger(v).await / trigger_noop(v) / trigger of an undeclared type, a controller creating barriers (condition = value set, reaction Noop/Suspend/Panic, overlapping conditions), polling wait, dropping Triggered handles and dropping barriers; the poll order between all of these is the scenario's schedule (seeded interleavings incl. spurious polls of suspended sources). Oracle = reference registry of live barriers in creation order: each trigger goes to the earliest-created live matching barrier only, each barrier's wait results equal its model queue in order and exactly once, after every poll each source has made exactly the progress the model allows (suspended until its handle or the barrier is dropped, proceeds on its next poll afterwards; Noop and unmatched triggers never yield), Panic panics the source. fs mode: corruption_probability=1 inside a turmoil Sim, a Barrier<FsCorruption> sees one event per corrupting read (none if the condition is false or after the barrier is dropped); a read whose corruption event matches a Panic or Suspend barrier (the synchronous hook panics on both) must panic the reading code and nothing else — these scenarios (fs::read, File + Read, read_at with a second handle open; barrier created by the test or by the host) run in a child process, whose death is the violation PanicAbortsProcess; burst mode: 1-600 unmatched triggers inside one poll of a turmoil host task never yield. Every scenario runs on a thread of its own (the registry is thread-local). Non-trivial: >=2 live barriers match one trigger, or a barrier/handle is dropped while a source is suspended; distinct = digest of (step kinds, reactions taken)".into()
     }
     fn components_real() -> Vec<&'static str> {
         vec!["turmoil::barriers (Barrier::build/new/wait, trigger, trigger_noop, Triggered, thread-local registry)", "turmoil::Sim + turmoil-fs corruption hook (fs mode)"]
@@ -143,6 +143,11 @@ impl Property for C20 {
         if rng.chance(1, 200) {
             // mode 2: a long run of triggers that match nothing, inside one poll of a runtime-driven task
             return Scenario { mode: 2, sources: vec![], schedule: vec![], fs_reads: rng.range(1, 600) as u32, fs_match: rng.bool(), fs_drop_after: None, fs_burst: 0, fs_inside: false, seed: rng.next_u64() };
+        }
+        if rng.chance(1, 4000) {
+            // mode 3: a Panic (or, for the synchronous hook equally fatal, Suspend) barrier on the corruption event of a
+            // read; executed in a child process (fs_burst: how the file is read, fs_reads: reaction)
+            return Scenario { mode: 3, sources: vec![], schedule: vec![], fs_reads: rng.below(3) as u32, fs_match: rng.chance(4, 5), fs_drop_after: None, fs_burst: rng.below(3) as u32, fs_inside: rng.chance(1, 3), seed: rng.next_u64() };
         }
         if rng.chance(1, 40) {
             return Scenario {
@@ -275,6 +280,9 @@ impl Property for C20 {
         if sc.mode == 1 {
             return format!("fs reads={} match={} drop={:?}", sc.fs_reads, sc.fs_match, sc.fs_drop_after);
         }
+        if sc.mode == 3 {
+            return format!("fs read (style {}) under a barrier with reaction #{} on the corruption event, condition {}, created by {}", sc.fs_burst, sc.fs_reads, sc.fs_match, if sc.fs_inside { "the host" } else { "the test" });
+        }
         if sc.mode == 2 {
             return format!("burst of {} unmatched triggers in one poll of a host task, other barrier live={}", sc.fs_reads, sc.fs_match);
         }
@@ -299,6 +307,7 @@ fn run_here(sc: &Scenario, keep: bool) -> Report {
     let r = catch(|| match sc.mode {
         0 => run_exec(sc, &mut log, &mut rep),
         2 => run_burst(sc, &mut log, &mut rep),
+        3 => run_fs_panic_in_child(sc, &mut log, &mut rep),
         _ => run_fs(sc, &mut log, &mut rep),
     });
     let violation = match r {
@@ -731,6 +740,143 @@ fn run_fs(sc: &Scenario, log: &mut Log, rep: &mut Report) -> Option<Violation> {
     None
 }
 
+
+/// Mode 3, parent side: the scenario runs in a child process, because the failure it looks for takes the
+/// whole process down (a second panic while the first one unwinds aborts).
+fn run_fs_panic_in_child(sc: &Scenario, log: &mut Log, rep: &mut Report) -> Option<Violation> {
+    let exe = std::env::current_exe().expect("current_exe");
+    let json = serde_json::to_string(sc).expect("scenario json");
+    let out = match std::process::Command::new(&exe).arg("c20-child").arg(&json).output() {
+        Ok(o) => o,
+        Err(e) => {
+            rep.harness_error = Some(format!("could not spawn the child process: {e}"));
+            return None;
+        }
+    };
+    rep.probes.inc("fs_read_under_panic_or_suspend_barrier_in_child_process");
+    rep.nontrivial = sc.fs_match;
+    let stdout = String::from_utf8_lossy(&out.stdout).to_string();
+    let line = stdout.lines().find(|l| l.starts_with("C20CHILD ")).map(|l| l.to_string());
+    log.ev(format!("child status {:?} says {:?}", out.status, line));
+    match line.as_deref() {
+        Some("C20CHILD ok") if out.status.success() => {
+            if sc.fs_match && sc.fs_reads != 0 {
+                rep.faults.inc("injected_panic_on_corrupting_read");
+            }
+            None
+        }
+        Some(l) if l.starts_with("C20CHILD violation ") => {
+            let rest = &l["C20CHILD violation ".len()..];
+            let (class, msg) = rest.split_once('|').unwrap_or(("FsPanic", rest));
+            Some(Violation::new(class, msg.to_string()))
+        }
+        _ => {
+            let err = String::from_utf8_lossy(&out.stderr);
+            let tail: String = err.lines().rev().take(4).collect::<Vec<_>>().into_iter().rev().collect::<Vec<_>>().join(" / ");
+            Some(Violation::new(
+                "PanicAbortsProcess",
+                format!("fs mode: the barrier's reaction to the corruption event of a read is to panic the triggering code; instead the whole process died ({:?}) — stderr ends: {}", out.status, tail.chars().take(400).collect::<String>()),
+            ))
+        }
+    }
+}
+
+/// Mode 3, child side (`vcheck c20-child <scenario json>`).
+pub fn child(json: &str) -> i32 {
+    let Ok(sc) = serde_json::from_str::<Scenario>(json) else {
+        println!("C20CHILD violation HarnessError|scenario does not parse");
+        return 2;
+    };
+    match catch(|| fs_panic_here(&sc)) {
+        Ok(None) => println!("C20CHILD ok"),
+        Ok(Some(v)) => println!("C20CHILD violation {}|{}", v.class, v.message.replace('\n', " ")),
+        Err(p) => println!("C20CHILD violation Panic|unexpected panic outside the simulation: {}", p.replace('\n', " ")),
+    }
+    0
+}
+
+fn fs_panic_here(sc: &Scenario) -> Option<Violation> {
+    use turmoil::fs::shim::std::fs as sfs;
+    use turmoil::fs::FsCorruption;
+    let mut b = turmoil::Builder::new();
+    b.rng_seed(sc.seed).epoch(std::time::UNIX_EPOCH + std::time::Duration::from_secs(1_600_000_000));
+    b.fs().corruption_probability(1.0);
+    let mut sim = b.build();
+    let reaction = |n: u32| match n {
+        0 => Reaction::Noop,
+        1 => Reaction::Suspend,
+        _ => Reaction::Panic,
+    };
+    let matches = sc.fs_match;
+    let bcell: Rc<RefCell<Option<Barrier<FsCorruption>>>> = Rc::new(RefCell::new(None));
+    if !sc.fs_inside {
+        *bcell.borrow_mut() = Some(Barrier::build(reaction(sc.fs_reads), move |c: &FsCorruption| matches && c.path.ends_with("data")));
+    }
+    let (bcell2, inside, style, react_no) = (bcell.clone(), sc.fs_inside, sc.fs_burst, sc.fs_reads);
+    let reached = Rc::new(Cell::new(false));
+    let reached2 = reached.clone();
+    sim.client("h", async move {
+        if inside {
+            *bcell2.borrow_mut() = Some(Barrier::build(reaction(react_no), move |c: &FsCorruption| matches && c.path.ends_with("data")));
+        }
+        sfs::write("/data", b"0123456789abcdef")?;
+        match style {
+            0 => {
+                let _ = sfs::read("/data")?;
+            }
+            1 => {
+                use std::io::Read;
+                let mut f = sfs::File::open("/data")?;
+                let mut buf = [0u8; 16];
+                let _ = f.read(&mut buf)?;
+                drop(f);
+            }
+            _ => {
+                use std::os::unix::fs::FileExt;
+                let f = sfs::OpenOptions::new().read(true).write(true).open("/data")?;
+                let g = sfs::File::open("/data")?;
+                let mut buf = [0u8; 8];
+                let _ = f.read_at(&mut buf, 4)?;
+                drop((f, g));
+            }
+        }
+        reached2.set(true);
+        Ok(())
+    });
+    let r = catch(|| {
+        for _ in 0..6 {
+            match sim.step() {
+                Ok(true) => break,
+                Ok(false) => {}
+                Err(e) => return Some(e.to_string()),
+            }
+        }
+        None
+    });
+    let must_panic = sc.fs_match && sc.fs_reads != 0;
+    let v = match (&r, must_panic) {
+        (Err(p), true) => {
+            if reached.get() {
+                Some(Violation::new("NotSuspended", format!("fs mode: the step panicked ({p}) but the reading code had already proceeded past the read")))
+            } else {
+                None
+            }
+        }
+        (Err(p), false) => Some(Violation::new("SpuriousPanic", format!("fs mode: no live barrier with a panicking reaction matches, yet the step panicked: {p}"))),
+        (Ok(Some(e)), _) => Some(Violation::new("SimError", format!("fs mode: step failed: {e}"))),
+        (Ok(None), true) => Some(Violation::new("PanicNotInjected", format!("fs mode: a barrier with reaction #{} matches the corruption event of the read; the triggering code was not panicked (read code proceeded: {})", sc.fs_reads, reached.get()))),
+        (Ok(None), false) => {
+            if reached.get() {
+                None
+            } else {
+                Some(Violation::new("ReadBlocked", "fs mode: the read under a Noop / non-matching barrier did not complete".to_string()))
+            }
+        }
+    };
+    *bcell.borrow_mut() = None;
+    drop(sim);
+    v
+}
 
 /// Mode 2: inside a turmoil host (a task driven by a tokio runtime, with its cooperative budget) `n`
 /// `trigger(v).await` calls in a row match no live barrier. They return immediately: the host never
